@@ -220,7 +220,7 @@ def run(tier, replay=None):
     core.proof_coverage(chk, lres, THM)
     b = core.build("asan", harness=["h_cb"])
     r = core.rng("C11")
-    nsets, nbig = (110, 6) if tier == "quick" else (4000, 120)
+    nsets, nbig = (300, 12) if tier == "quick" else (6000, 150)
     cases = gen_cases(r, nsets, nbig)
     if replay:
         cases = [replay["case"]]
